@@ -633,7 +633,7 @@ class Fn:
                 return tuple(ps), d
             bad(tgt, "loop target does not match the element type %s" % tshow(ty))
 
-        def lst(n):
+        def lst(n, snapshot=False):
             if isinstance(n, ast.Call) and isinstance(n.func, ast.Name) and not n.keywords:
                 f = n.func.id
                 if f == "range" and len(n.args) == 1:
@@ -650,11 +650,11 @@ class Fn:
                     p1, a, ta, _ = lst(n.args[0])
                     return p1, Tm("(List.zipIdx {0})", [a]), ("Prod", (ta, "Nat")), "enum"
                 if f == "list" and len(n.args) == 1:
-                    return lst(n.args[0])                       # snapshot = the value itself
+                    return lst(n.args[0], True)                 # snapshot = the value itself
             pre, v, ty = self.expr(n, env)
             if not (isinstance(ty, tuple) and ty[0] == "List"):
                 bad(n, "iteration over something that is not a list (type %s)" % tshow(ty))
-            if isinstance(n, (ast.Name, ast.Attribute)):
+            if isinstance(n, (ast.Name, ast.Attribute)) and not snapshot:
                 x = self.state.get(ast.unparse(n), (getattr(n, "id", None),))[0]
                 if x in self.mutated:
                     bad(n, "iteration over a list that the function mutates in place (no snapshot)")
